@@ -1992,7 +1992,13 @@ def _lonely_view(sm, kind, how, grow):
     import pickle
 
     hist = [("new", kind)] + ([("append", "M0")] if grow else [])
-    st = sm.build(hist)
+    # this history was not validated by the BFS of this run: it is executed step by step with all
+    # oracles on, and a violation is reported as a violation (by the step, under its usual signature)
+    st = sm.build([])
+    for op in hist:
+        if not sm.step(st, op):
+            sm.dispose(st)
+            return None
     e = st.ens
     nc = st.nc
     if nc == 0 or st.na == 0:
@@ -2116,23 +2122,27 @@ def _ctor_layer(ctx, part):
     sm = ESys(ctx, na=na, ncmax=8, nit=2, label="ctor", kinds=KINDS, full=True)
     st = sm.build([])
     M, E2 = st.mols, st.e2
-    # deserialised sources
-    lib = sm._lib(ml.ConformerLibrary, sm.libpath_c)
-    try:
-        with lib.writing(timeout=5):
-            lib["k"] = E2
-        with lib.reading(timeout=5):
-            dE = lib["k"]
-    finally:
-        sm._lib_done(lib, sm.libpath_c)
-    lib = sm._lib(ml.MoleculeLibrary, sm.libpath_m)
-    try:
-        with lib.writing(timeout=5):
-            lib["k"] = M[1]
-        with lib.reading(timeout=5):
-            dM = lib["k"]
-    finally:
-        sm._lib_done(lib, sm.libpath_m)
+    # deserialised sources (a failure to prepare them is a finding of its own, not a harness error)
+    dE = dM = None
+    sources = list(CTOR_SOURCES)
+    for name_, cls_, path_, obj_ in (("deserialised-ensemble", ml.ConformerLibrary, sm.libpath_c, E2), ("deserialised-molecule", ml.MoleculeLibrary, sm.libpath_m, M[1])):
+        lib = None
+        try:
+            lib = sm._lib(cls_, path_)
+            with lib.writing(timeout=5):
+                lib["k"] = obj_
+            with lib.reading(timeout=5):
+                got_ = lib["k"]
+            if name_ == "deserialised-ensemble":
+                dE = got_
+            else:
+                dM = got_
+        except Exception as ex:
+            ctx.violation(f"ctor[{name_}]:preparing-the-source-raised-{exc_name(ex)}", f"storing and reading back the source object raised {exc_name(ex)}: {ex}", {"layer": "ctor", "source": name_, "na": na})
+            sources.remove(name_)
+        finally:
+            if lib is not None:
+                sm._lib_done(lib, path_)
 
     def source(kind):
         # -> (positional argument or None, extra keywords, number of conformers the source fixes or None)
@@ -2164,7 +2174,7 @@ def _ctor_layer(ctx, part):
             return full[0:1]
         raise HarnessError(shape)
 
-    for kind in CTOR_SOURCES:
+    for kind in sources:
         for ncarg in (None, 2, 3):
             for r in range(0, 4):
                 for given in itertools.combinations(("coords", "charges", "weights"), r):
@@ -2343,6 +2353,9 @@ def replay(ctx, case):
         return
     sm = ESys(ctx, na=case.get("na", 2), ncmax=case.get("ncmax", 4), nit=case.get("nit", 2), label="replay")
     hist = [tuple(o) for o in case["history"]]
-    st = sm.build(hist[:-1])
-    sm.step(st, hist[-1])
+    # every step with all oracles on (the tree may differ from the one the case was found on)
+    st = sm.build([])
+    for op in hist:
+        if not sm.step(st, op):
+            break
     sm.dispose(st)
